@@ -51,13 +51,18 @@ def case_ops(trace_lines, caseid):
             m = re.search(r"threads=(\d+)", l)
             if m:
                 threads = int(m.group(1))
+            m = re.search(r"dnl=(\d+)", l)
+            if m and int(m.group(1)) != 6000000000:
+                threads = (threads, int(m.group(1)) // 1000000)   # (threads, dead-nonce lifetime in ms)
         if on and l.startswith("ev "):
             ops.append(l)
     return threads, ops
 
 
 def ops_text(threads, ops):
-    return "case 0\nthreads %d\n" % threads + "\n".join(ops) + "\n"
+    """threads is the thread count, or (thread count, dead-nonce lifetime in ms) when that is not the default"""
+    hdr = "threads %d\n" % threads if isinstance(threads, int) else "threads %d\ndnl %d\n" % tuple(threads)
+    return "case 0\n" + hdr + "\n".join(ops) + "\n"
 
 
 def runner_on(exe, trace, prop):
